@@ -43,6 +43,8 @@ class ULPIRegisterWindow(Elaboratable):
 
         # Controller signals:
         O: busy              -- indicates when the register window is busy processing a transaction
+        O: read_response     -- indicates when the PHY is answering a register read; the byte it presents
+                                with DIR high and NXT low is then register data, and not an RxCmd
         I: address[6]        -- the address of the register to work with
         O: done              -- strobe that indicates when a register request is complete
 
@@ -71,6 +73,7 @@ class ULPIRegisterWindow(Elaboratable):
         self.ulpi_stop     = Signal()
 
         self.busy          = Signal()
+        self.read_response = Signal()
         self.address       = Signal(6)
         self.done          = Signal()
 
@@ -98,6 +101,9 @@ class ULPIRegisterWindow(Elaboratable):
 
             # We're busy whenever we're not IDLE; indicate so.
             m.d.comb += self.busy.eq(~fsm.ongoing('IDLE'))
+
+            # The PHY only presents register data once it has accepted a read command.
+            m.d.comb += self.read_response.eq(fsm.ongoing('READ_TURNAROUND') | fsm.ongoing('READ_COMPLETE'))
 
             # IDLE: wait for a request to be made
             with m.State('IDLE'):
@@ -883,7 +889,9 @@ class UTMITranslator(Elaboratable):
 
             # Connect our data inputs to the event decoder.
             # Note that the event decoder is purely passive.
-            rxevent_decoder.register_operation_in_progress.eq(register_window.busy),
+            # Note that only the response to a register read can be mistaken for an RxCmd; during
+            # the rest of a register operation, any RxCmd the PHY sends is genuine.
+            rxevent_decoder.register_operation_in_progress.eq(register_window.read_response),
             self.last_rx_command          .eq(rxevent_decoder.last_rx_command),
 
             # Connect our inputs to our transmit translator.
